@@ -65,6 +65,25 @@ class W_Overwrite(Module):
         return None
 
 
+class W_Stale(Module):
+    def _prepare(self, solver=None):
+        self.solver = W_Solver() if solver is None else solver
+        self.kind = None
+        self.cache = None
+
+    def _response(self, A, b):
+        if b.ndim == 1:
+            self.cache = b * 2             # R-FRESH: written only on an input-dependent path
+        if self.kind is None:
+            self.kind = bool(np.allclose(A, A.T))   # R-LATCH: decided from the first matrix's values
+        if self.kind:
+            self.solver.update(A)
+        return self.solver.solve(b)        # R-UPDATE-BEFORE-SOLVE: solve reachable without update
+
+    def _sensitivity(self, dx):
+        return None, self.cache * dx
+
+
 class W_Solver(LinearSolver):
     def update(self, A):
         self.A = A
